@@ -4,6 +4,7 @@
    Definitions only. isize is Z; `as usize` on an index is written out (idx_usize / the sign test in
    cc_pending); f32 is model/F32.v. *)
 From Sakura.Model Require Import Base Event F32.
+From Sakura.Gen Require Import Consts.
 
 (* x_on_note: Option<Vec<isize>>, x_on_note_index, x_on_note_is_cycle *)
 Record onres := mkOnres { r_list : option (list Z); r_index : Z; r_cycle : bool }.
@@ -240,3 +241,142 @@ Fixpoint rand_values (seed val width : Z) (n : nat) : list Z :=
   | O => []
   | S m => let '(v, s) := calc_rand_value seed val width in v :: rand_values s val width m
   end.
+
+(* ---- runner.rs: the reservation token arms and their use in exec_note / exec_note_n -------------- *)
+(* The part of Song/Track state these arms touch besides the track record above: track.length, the four
+   random widths, the seed and the time base. Notes are plain (no explicit length/velocity/..., no tie,
+   no harmony, key shifts 0), which is the fragment the C16 checks generate. *)
+Record rstate := mkRS {
+  rs_k : track; rs_length : Z; rs_vr : Z; rs_qr : Z; rs_tr : Z; rs_or : Z; rs_seed : Z; rs_timebase : Z }.
+Definition with_k (s : rstate) (k : track) : rstate :=
+  mkRS k (rs_length s) (rs_vr s) (rs_qr s) (rs_tr s) (rs_or s) (rs_seed s) (rs_timebase s).
+Definition with_seed (s : rstate) (x : Z) : rstate :=
+  mkRS (rs_k s) (rs_length s) (rs_vr s) (rs_qr s) (rs_tr s) (rs_or s) x (rs_timebase s).
+Definition with_length (s : rstate) (x : Z) : rstate :=
+  mkRS (rs_k s) x (rs_vr s) (rs_qr s) (rs_tr s) (rs_or s) (rs_seed s) (rs_timebase s).
+Definition with_rand (w : which) (s : rstate) (x : Z) : rstate :=
+  match w with
+  | WV => mkRS (rs_k s) (rs_length s) x (rs_qr s) (rs_tr s) (rs_or s) (rs_seed s) (rs_timebase s)
+  | WQ => mkRS (rs_k s) (rs_length s) (rs_vr s) x (rs_tr s) (rs_or s) (rs_seed s) (rs_timebase s)
+  | WT => mkRS (rs_k s) (rs_length s) (rs_vr s) (rs_qr s) x (rs_or s) (rs_seed s) (rs_timebase s)
+  | WO => mkRS (rs_k s) (rs_length s) (rs_vr s) (rs_qr s) (rs_tr s) x (rs_seed s) (rs_timebase s)
+  | WL => s
+  end.
+
+Inductive rcmd :=
+| ROnNote (w : which) (cyc : bool) (ia : list Z)     (* x.onNote / x.onCycle *)
+| RVOnTime (ia : list Z)                             (* v.onTime *)
+| RPlain (w : which) (v : Z)                         (* v / q / t / o <n>; l: the computed length in ticks *)
+| RRandom (w : which) (r : Z)                        (* x.Random *)
+| RCCOnTime (no : Z) (ia : list Z)
+| RCCOnNote (no : Z) (ia : list Z)
+| RCCOnNoteWave (no : Z) (ia : list Z)
+| RFreq (f : Z)
+| RPBOnTime (is_big : Z) (ia : list Z)
+| RCC (no v : Z)                                     (* plain controller value *)
+| RNote (pc : Z)                                     (* lettered note, pitch class 0..11 *)
+| RNoteN (key : Z)                                   (* numbered note *)
+| RRest.
+
+(* (notelen as f32 * qlen as f32 / 100.0) as isize *)
+Definition gate_f32 (notelen qlen : Z) : Z :=
+  f32_to_Z (f32_div (f32_mul (f32_of_Z notelen) (f32_of_Z qlen)) (f32_of_Z 100)).
+
+(* `if x_rand > 0 { song.calc_rand_value(v, x_rand) } else { v }` *)
+Definition draw (s : rstate) (val width : Z) : Z * rstate :=
+  if width >? 0 then let '(v, seed) := calc_rand_value (rs_seed s) val width in (v, with_seed s seed)
+  else (val, s).
+
+Definition set_freq (k : track) (f : Z) : track :=
+  mkTrack (tr_timepos k) (tr_channel k) (tr_velocity k) (tr_qlen k) (tr_timing k) (tr_octave k) (tr_v_on_time_start k) (tr_v_on_time k)
+    (tr_v k) (tr_q k) (tr_t k) (tr_o k) (tr_l k) f (tr_events k) (tr_cc_on_note k) (tr_cc_on_note_wave k).
+
+Definition finish_note (k : track) (start_pos : Z) (e : event) : track :=
+  let k := write_cc_on_note k start_pos in
+  let k := write_cc_on_note_wave k start_pos in
+  set_events k (tr_events k ++ [e]).
+
+Definition exec_note (s : rstate) (pc : Z) : rstate :=
+  let k := rs_k s in
+  let no := tr_octave k * 12 + pc in
+  let timepos := tr_timepos k in
+  let '(v, k) := calc_v_on_time k (tr_velocity k) in
+  let '(v, k) := calc_v_on_note k v in
+  let '(t, k) := calc_t_on_note k (tr_timing (rs_k s)) in
+  let '(qlen, k) := calc_qlen_on_note k (tr_qlen (rs_k s)) in
+  let '(o_abs, k) := calc_o_on_note k (-1) in
+  let no := if o_abs =? -1 then no else Z.rem no 12 + o_abs * 12 in
+  let s := with_k s k in
+  let '(no, s) := if rs_or s >? 0
+                  then let '(r, s1) := draw s 0 (rs_or s) in (if r =? 0 then no else no + r * 12, s1)
+                  else (no, s) in
+  let '(v, s) := draw s v (rs_vr s) in
+  let '(t, s) := draw s t (rs_tr s) in
+  let '(qlen, s) := draw s qlen (rs_qr s) in
+  let '(l_on, k) := calc_l_on_note (rs_k s) (-1) in
+  let notelen := if l_on =? -1 then rs_length s else l_on in
+  let e := ev_note (timepos + t) (tr_channel k) (value_range 0 no 127) (gate_f32 notelen qlen) (value_range 0 v 127) in
+  let k := set_timepos k (tr_timepos k + notelen) in
+  with_k s (finish_note k timepos e).
+
+Definition exec_note_n (s : rstate) (key : Z) : rstate :=
+  let k := rs_k s in
+  let start_pos := tr_timepos k in
+  let notelen := rs_length s in
+  let '(v, k) := calc_v_on_time k (tr_velocity k) in
+  let '(v, k) := calc_v_on_note k v in
+  let '(t, k) := calc_t_on_note k (tr_timing (rs_k s)) in
+  let '(qlen, k) := calc_qlen_on_note k (tr_qlen (rs_k s)) in
+  let '(_, k) := calc_o_on_note k (-1) in
+  let '(l_on, k) := calc_l_on_note k (-1) in
+  let notelen := if l_on =? -1 then notelen else l_on in
+  let s := with_k s k in
+  let '(v, s) := draw s v (rs_vr s) in
+  let '(t, s) := draw s t (rs_tr s) in
+  let '(qlen, s) := draw s qlen (rs_qr s) in
+  let k := rs_k s in
+  let e := ev_note (tr_timepos k + t) (tr_channel k) (value_range 0 key 127) (gate_f32 notelen qlen) (value_range 0 v 127) in
+  let k := finish_note k start_pos e in
+  with_k s (set_timepos k (tr_timepos k + notelen)).
+
+Definition exec_cmd (s : rstate) (c : rcmd) : rstate :=
+  let k := rs_k s in
+  match c with
+  | ROnNote w cyc ia =>
+      let k := match w with WV => set_v_on_time k None (tr_v_on_time_start k) | _ => k end in
+      with_k s (set_res w k (mkOnres (Some ia) 0 cyc))
+  | RVOnTime ia =>
+      let k := set_v k (mkOnres None (r_index (tr_v k)) (r_cycle (tr_v k))) in
+      with_k s (set_v_on_time k (Some ia) (tr_timepos k))
+  | RPlain w v =>
+      let r := get_res w k in
+      let k := set_res w k (mkOnres None (r_index r) (r_cycle r)) in
+      match w with
+      | WV => with_k s (set_velocity (set_v_on_time k None (tr_v_on_time_start k)) (value_range 0 v 127))
+      | WQ => with_k s (set_qlen k (value_range 0 v 100))
+      | WT => with_k s (set_timing k v)
+      | WO => with_k s (set_octave k (value_range 0 v 10))
+      | WL => with_length (with_k s k) v
+      end
+  | RRandom w r => with_rand w s r
+  | RCCOnTime no ia => with_k s (write_cc_on_time (remove_cc_on k no) no ia)
+  | RCCOnNote no ia => with_k s (set_cc_on_note k no ia)
+  | RCCOnNoteWave no ia => with_k s (set_cc_on_note_wave k no ia)
+  | RFreq f => with_k s (set_freq k f)
+  | RPBOnTime is_big ia => with_k s (write_pb_on_time k is_big ia (rs_timebase s))
+  | RCC no v =>
+      let k := remove_cc_on_note_wave k no in
+      with_k s (set_events k (tr_events k ++ [ev_cc (tr_timepos k) (tr_channel k) no v]))
+  | RNote pc => exec_note s pc
+  | RNoteN key => exec_note_n s key
+  | RRest => with_k s (set_timepos k (tr_timepos k + rs_length s))
+  end.
+
+Definition exec_cmds (s : rstate) (cs : list rcmd) : rstate := fold_left exec_cmd cs s.
+
+(* Track::new(timebase, channel) / Song::new() restricted to the modelled fields *)
+Definition onres_new : onres := mkOnres None 0 false.
+Definition track_new (channel : Z) : track :=
+  mkTrack 0 channel 100 90 0 5 (-1) None onres_new onres_new onres_new onres_new onres_new 4 [] [] [].
+Definition rstate_new (channel timebase : Z) : rstate :=
+  mkRS (track_new channel) timebase 0 0 0 0 SAKURA_DEFAULT_RANDOM_SEED timebase.
